@@ -133,6 +133,13 @@ def capture_cases(rng):
                 exp = '\n'.join(a)
                 # top-level elements: above only
                 out.append((f'table|above|{form}', above(a, form) + gap + 'Table t {\n  id int\n}\n', lambda d: d.tables[0].comment, exp))
+                if form == 'line':
+                    # identical lines repeated inside one block (a boxed heading) are all kept, in order
+                    box = ['-----', a[0], '-----', '', '']
+                    out.append((f'table|above-repeated-lines|{form}', above(box, form) + 'Table t {\n  id int\n}\n', lambda d: d.tables[0].comment, '\n'.join(box)))
+                    out.append((f'enum|above-repeated-lines|{form}', above(box, form) + 'Enum e {\n  x\n}\n', lambda d: d.enums[0].comment, '\n'.join(box)))
+                    out.append((f'ref-short|above-repeated-lines|{form}', 'Table t {\n id int\n x int\n}\n' + above(box, form) + 'Ref: t.id > t.x\n',
+                                lambda d: d.refs[0].comment, '\n'.join(box)))
                 out.append((f'enum|above|{form}', above(a, form) + gap + 'Enum e {\n  x\n}\n', lambda d: d.enums[0].comment, exp))
                 out.append((f'project|above|{form}', above(a, form) + gap + "Project p {\n  k: 'v'\n}\n", lambda d: d.project.comment, exp))
                 out.append((f'group|above|{form}', 'Table t {\n id int\n}\n' + above(a, form) + gap + 'TableGroup g {\n  t\n}\n',
@@ -191,6 +198,10 @@ def capture(sh, rng):
             sh.violation('capture', f'capture:wrong-comment:{label}', f'stored {got!r}, expected {exp!r}', case)
         else:
             sh.count('obs.capture_ok')
+        # no other element of the template may have picked a comment up (templates carry exactly one commented element)
+        others = [c for c in all_comments(db) if c != got]
+        if others:
+            sh.violation('capture', f'capture:comment-on-uncommented-element:{label.split("|")[0]}', f'unexpected comments {others[:3]}', case)
         emit_checks(sh, db, text, label)
 
 
@@ -271,11 +282,16 @@ def emit_checks(sh, db, text, label, props=False):
             sh.count('obs.comment_lines_checked')
             if f'// {ln}'.strip() not in dl:
                 sh.violation('emit', 'emit:dbml-comment-line-without-prefix', f'comment line {ln!r} not emitted as its own // line', dict(case, dbml=dbml))
+    sql_emitters = []      # (kind, comment) of every element whose SQL renderer emits the comment with it
     for t in db.tables:
-        for cm in [t.comment] + [c.comment for c in t.columns]:
-            for ln in (cm or '').split('\n') if cm else []:
-                if f'-- {ln}'.strip() not in sl:
-                    sh.violation('emit', 'emit:sql-comment-line-without-prefix', f'comment line {ln!r} not emitted as its own -- line', dict(case, sql=sql))
+        sql_emitters += [('table', t.comment)] + [('column', c.comment) for c in t.columns] + [('index', i.comment) for i in t.indexes]
+    for e in db.enums:
+        sql_emitters += [('enum', e.comment)] + [('enumitem', i.comment) for i in e.items]
+    sql_emitters += [('ref' + ('-m2m' if r.type == '<>' else ''), r.comment) for r in db.refs]
+    for kind_, cm in sql_emitters:
+        for ln in (cm or '').split('\n') if cm else []:
+            if f'-- {ln}'.strip() not in sl:
+                sh.violation('emit', f'emit:sql-comment-line-without-prefix:{kind_}', f'comment line {ln!r} of a {kind_} not emitted as its own -- line', dict(case, sql=sql))
     # (3) comment text never becomes part of a statement: same statements with and without comments
     try:
         with_c, found = stmts(sql)
